@@ -140,7 +140,11 @@ def realtime_plan(prop, pools, floors):
                 jobs.append((f, zones, maxperm))
         for n, (f, zones, maxperm) in enumerate(jobs):
             out = "obs%d.ndjson" % n
-            s = run.harness("realtime", ["-in", f, "-out", out, "-zones", zones, "-maxperm", maxperm], timeout=3000)
+            gen = []
+            if n == 0 and not replay and prop in ("C02", "C04", "C07", "C12"):
+                # large messages generated by the harness: 25 (thorough: 40) entities mentioning few trips and vehicles many times
+                gen = ["-gen", 60 if q else 600, "-genents", 25 if q else 40, "-seed", run.seed]
+            s = run.harness("realtime", ["-in", f, "-out", out, "-zones", zones, "-maxperm", maxperm] + gen, timeout=3000)
             run.load_inputs(out + ".inputs")
             run.validate_trace("RealtimeObs", out, s["cases"], timeout=3000)
             total += s["cases"]
@@ -181,6 +185,7 @@ def c16_plan(run, replay=None):
     if not replay:
         run.floor("messages", run.counters.get("messages", 0), 3000)
         run.floor("origin_times", run.counters.get("origin_times", 0), 12000 if q else 600000)
+        run.floor("conflict_free_after_prepass", run.counters.get("conflict_free_after_prepass", 0), 2500)
     run.counters["distinct_nontrivial"] = run.counters.get("messages", 0)
     return run.finish(
         "messages mixing NYCT-extended and plain entities x the 4 option combinations (exhaustive pools for the stale "
@@ -343,16 +348,22 @@ def c18_plan(run, replay=None):
 
 
 # ---------------------------------------------------------------------------------------------- static
-def static_plan(prop, pools_quick, pools_thorough, floors):
+def static_plan(prop, pools_quick, pools_thorough, floors, large=False):
+    """large: also judge large feeds generated by the harness (hundreds of rows per file, synthesized ids, shuffled
+    stop_times/shapes rows, every second feed with ~8% damaged rows): sizes TLC does not enumerate, where result slices
+    are re-allocated many times while pointers into them are outstanding."""
     def plan(run, replay=None):
         q = run.tier == "quick"
         run.build_harness()
+        gen = []
         if replay:
             replay_cases(run, replay, "cases.ndjson")
         else:
             for pool in (pools_quick if q else pools_thorough):
                 run.tlc("StaticMC", "ST_%s.cfg" % pool, "design", workers=16, cases_out="cases.ndjson", timeout=2400)
-        s = run.harness("static", ["-in", "cases.ndjson", "-out", "obs.ndjson", "-seed", run.seed], timeout=3000)
+            if large:
+                gen = ["-gen", 4 if q else 30, "-size", 5 if q else 10]
+        s = run.harness("static", ["-in", "cases.ndjson", "-out", "obs.ndjson", "-seed", run.seed] + gen, timeout=3000)
         run.load_inputs("obs.ndjson.inputs")
         run.validate_trace("GtfsStaticObs", "obs.ndjson", s["cases"], timeout=3000)
         only(run, [prop + "."] + (["relation-base-parses"] if prop in ("C08", "C09", "C10") else []))
@@ -416,11 +427,11 @@ ZONES = "nil,UTC,America/New_York,Asia/Kolkata,fixed+0545,Pacific/Auckland,fixed
 
 PLANS = {
     "C05": c05_plan,
-    "C01": static_plan("C01", ["C01"], ["C01"], {"distinct_feeds": 200, "parses": 700}),
-    "C03": static_plan("C03", ["C03stops", "C03refs", "C05cyc"], ["C03stops", "C03refs", "C05cyc", "C09pairs"], {"distinct_feeds": 3000}),
-    "C08": static_plan("C08", ["C08", "C08files"], ["C08", "C08files", "C01"], {"distinct_feeds": 1000}),
-    "C09": static_plan("C09", ["C09"], ["C09", "C09pairs"], {"distinct_feeds": 120}),
-    "C10": static_plan("C10", ["C10"], ["C10"], {"distinct_feeds": 300}),
+    "C01": static_plan("C01", ["C01"], ["C01"], {"distinct_feeds": 200, "parses": 700}, large=True),
+    "C03": static_plan("C03", ["C03stops", "C03refs", "C05cyc"], ["C03stops", "C03refs", "C05cyc", "C09pairs"], {"distinct_feeds": 3000}, large=True),
+    "C08": static_plan("C08", ["C08", "C08files"], ["C08", "C08files", "C01"], {"distinct_feeds": 1000, "relations_judged": 1400}, large=True),
+    "C09": static_plan("C09", ["C09"], ["C09", "C09pairs"], {"distinct_feeds": 120, "relations_judged": 120}),
+    "C10": static_plan("C10", ["C10"], ["C10"], {"distinct_feeds": 300, "relations_judged": 400}),
     "C11": static_plan("C11", ["C11q", "C11b"], ["C11", "C11b"], {"distinct_feeds": 2000}),
     "C18": c18_plan,
     "C06": c06_plan,
@@ -430,9 +441,9 @@ PLANS = {
     "C02": realtime_plan("C02", [("RT_fields.cfg", "RT_fields.cfg", ZONES, 1),
                                  (("RT_random.cfg", 1500), ("RT_random.cfg", 30000), ZONES, 1),
                                  ("RT_merge_quick.cfg", "RT_merge_thorough.cfg", "nil,America/New_York", 4)],
-                         {"distinct_messages": 1500}),
-    "C04": realtime_plan("C04", [("RT_merge_quick.cfg", "RT_merge_thorough.cfg", "nil", 4)], {"messages_with_2plus_entities": 400}),
-    "C07": realtime_plan("C07", [("RT_merge_quick.cfg", "RT_merge_thorough.cfg", "nil", 4)], {"messages_with_2plus_entities": 400}),
+                         {"distinct_messages": 1500, "conflict_free_messages": 1500}),
+    "C04": realtime_plan("C04", [("RT_merge_quick.cfg", "RT_merge_thorough.cfg", "nil", 4)], {"messages_with_2plus_entities": 400, "conflict_free_messages": 300}),
+    "C07": realtime_plan("C07", [("RT_merge_quick.cfg", "RT_merge_thorough.cfg", "nil", 4)], {"messages_with_2plus_entities": 400, "conflict_free_messages": 300}),
     "C12": realtime_plan("C12", [("RT_alerts_quick.cfg", "RT_alerts_thorough.cfg", "nil", 1), ("RT_alerts2.cfg", "RT_alerts2.cfg", "nil", 2),
                                  ("RT_merge_quick.cfg", "RT_merge_quick.cfg", "nil", 1)], {"distinct_messages": 400}),
     "C20": c20_plan,
